@@ -320,8 +320,10 @@ structure Conv (α : Type) where
 namespace Conv
 def padH (m : Conv α) : Nat := if m.valid then 0 else m.fh - 1
 def padW (m : Conv α) : Nat := if m.valid then 0 else m.fw - 1
-def outH (m : Conv α) : Nat := m.h - m.fh + 1 + m.padH
-def outW (m : Conv α) : Nat := m.w - m.fw + 1 + m.padW
+/-- `image_height - filter_height + 1 + padding_height` in `size_t` arithmetic: with zero padding the filter may be
+larger than the image (the difference wraps around and the sum is the image height again) -/
+def outH (m : Conv α) : Nat := m.h + m.padH + 1 - m.fh
+def outW (m : Conv α) : Nat := m.w + m.padW + 1 - m.fw
 def nIn (m : Conv α) : Nat := m.h * m.w * m.c
 def nOut (m : Conv α) : Nat := m.outH * m.outW * m.nf
 def fsize (m : Conv α) : Nat := m.fh * m.fw * m.c
